@@ -92,11 +92,15 @@ func genWorkload(r *rand.Rand, ntasks int) *workload {
 			}
 			t.Calls = append(t.Calls, c)
 		}
-		switch r.IntN(8) {
+		switch r.IntN(10) {
 		case 0:
 			t.Extra = "skip"
 		case 1:
 			t.Extra = "standalone"
+		case 2:
+			// a call whose snapshot directory cannot be created (a regular file is in the way):
+			// it fails, and nothing it held may stay held
+			t.Extra = "blocked-dir"
 		}
 		w.Tasks = append(w.Tasks, t)
 	}
@@ -245,6 +249,16 @@ func runTask(root string, cfg *snaps.Config, t wTask, client int, h *recorder, o
 			mu.Unlock()
 		}
 		switch t.Extra {
+		case "blocked-dir":
+			blocked := snaps.WithConfig(snaps.Dir(filepath.Join(root, "blocker.txt", "sub")), snaps.Filename("shared"))
+			bt := vkit.NewT(t.Test + "/blocked")
+			blocked.MatchSnapshot(bt, "cannot be stored")
+			if o := vkit.Classify(bt.Take()); o != vkit.Failed {
+				mu.Lock()
+				*outcomes = append(*outcomes, fmt.Sprintf("%s/blocked:%s(!)", t.Test, o))
+				mu.Unlock()
+			}
+			bt.Finish()
 		case "skip":
 			side := vkit.NewT(t.Test + "/side")
 			snaps.Skip(side, "side skip")
@@ -321,7 +335,7 @@ func judge(c *vkit.Ctx, w *workload, h *recorder, path string, in map[string]any
 }
 
 func checkC06(c *vkit.Ctx) {
-	c.P.Rule = "case = (workload, schedule): 2-5 task goroutines, each one test execution (some re-executed) with 1-3 Match* calls of kind create/match/mismatch/update (MatchSnapshot/JSON/YAML) on one shared pre-populated file (half of the JSON documents handed over as Go values, values of a slot mostly of equal length so that rewrites keep the file size), some with snaps.Skip and standalone calls, one Config shared by all tasks (in half of the workloads the odd-numbered tasks reach the directory through a symbolic link and share a second Config); token mode: the real code built from an AST-instrumented overlay of the current sources yields at every file-system/lock operation and a controller grants one task at a time under a seeded strategy (PCT-style priorities with <=3 change points, uniform random, the two-cut family Y^j X^k Y* X* over task pairs, and site-cuts `Y until parked at its n-th <operation>, X until parked at its m-th <operation>, Y*, X*` over 13 operation classes); every grant list is recorded and replayable; oracle: porcupine linearizability check of the recorded call/return history plus one final-read per slot against a sequential slot-store model (partitioned by slot), independent reader on the final file (torn/unexpected/duplicate entries), deadlock detection; a third group of workers runs a -trimpath build of this engine, where the odd-numbered tasks spell the directory relative to the working directory and the others absolute (token schedules, then free-running); free mode (every run, built with -race): the same workloads run unscheduled with seeded random delays at the same points, race reports are counted; non-trivial = schedule with >=1 context switch between another task's file read and its file write (window hit) ; distinct by hash(workload, grant list)"
+	c.P.Rule = "case = (workload, schedule): 2-5 task goroutines, each one test execution (some re-executed) with 1-3 Match* calls of kind create/match/mismatch/update (MatchSnapshot/JSON/YAML) on one shared pre-populated file (half of the JSON documents handed over as Go values, values of a slot mostly of equal length so that rewrites keep the file size), some with snaps.Skip, standalone calls and a call whose snapshot directory cannot be created, one Config shared by all tasks (in half of the workloads the odd-numbered tasks reach the directory through a symbolic link and share a second Config); token mode: the real code built from an AST-instrumented overlay of the current sources yields at every file-system/lock operation and a controller grants one task at a time under a seeded strategy (PCT-style priorities with <=3 change points, uniform random, the two-cut family Y^j X^k Y* X* over task pairs, and site-cuts `Y until parked at its n-th <operation>, X until parked at its m-th <operation>, Y*, X*` over 13 operation classes); every grant list is recorded and replayable; oracle: porcupine linearizability check of the recorded call/return history plus one final-read per slot against a sequential slot-store model (partitioned by slot), independent reader on the final file (torn/unexpected/duplicate entries), deadlock detection; a third group of workers runs a -trimpath build of this engine, where the odd-numbered tasks spell the directory relative to the working directory and the others absolute (token schedules, then free-running); free mode (every run, built with -race): the same workloads run unscheduled with seeded random delays at the same points, race reports are counted; non-trivial = schedule with >=1 context switch between another task's file read and its file write (window hit) ; distinct by hash(workload, grant list)"
 	c.P.Assumptions = []string{"the instrumenter only adds yield points (syntactic); sites reached are reported", "in token mode the hand-off channels order every step, so data races are looked for only in free mode"}
 	if os.Getenv("VERIF_RACE_BUILD") == "1" {
 		freeMode(c)
@@ -382,6 +396,7 @@ func setupFile(w *workload) (root, path string, cfg *snaps.Config) {
 	root = vkit.MkScratch("c06")
 	path = filepath.Join(root, "shared.snap")
 	os.WriteFile(path, []byte(vkit.RenderSnapFile(w.Pre)), 0o644)
+	os.WriteFile(filepath.Join(root, "blocker.txt"), []byte("a regular file where a directory is wanted"), 0o644)
 	cfg = snaps.WithConfig(snaps.Dir(root), snaps.Filename("shared"), snaps.JSON(snaps.JSONConfig{Indent: " ", SortKeys: true}))
 	if trimPart {
 		// the relative spelling (relative to the working directory)
